@@ -112,10 +112,9 @@ func VerifHarness_C02_KeyCursor() {
 	asc := vBool("ascending")
 	array := true
 	if vThorough() {
-		array = vBool("arrayCursor")
-	} else {
-		vAssume(points <= 4) // quick tier: at most 4 stored points, array block reader only
+		array = vBool("arrayCursor") // thorough: both block readers (and a tombstone range, above)
 	}
+	vAssume(points <= 4) // at most 4 stored points (the uncapped form does not finish in 40 min)
 
 	c := newKeyCursor(context.Background(), fs, key, seek, asc)
 	var out []vC02P
